@@ -50,7 +50,7 @@ def exports(ms, export):
 
 
 SHAPES = ["bare", "as", "names1", "names-p", "names-as", "names-mixed", "star", "macros-kw", "macros-star", "double", "local", "readers",
-          "rel-names", "rel-star", "rel-as"]
+          "rel-names", "rel-star", "rel-as", "pkg-sub", "pkg-sub-as"]
 
 
 def shape_applicable(shape, ms, export, reader):
@@ -89,6 +89,10 @@ def require_form(shape, a_name, rel_name):
         "rel-names": "(require %s [m1])" % rel_name,
         "rel-star": "(require %s *)" % rel_name,
         "rel-as": "(require %s :as P)" % rel_name,
+        # "all the same syntax as import": a name in the list that is a SUBMODULE of a (macro-less)
+        # package is required like `(require pkg.a :as a)`; rel_name is the package here
+        "pkg-sub": "(require %s [a])" % rel_name,
+        "pkg-sub-as": "(require %s [a :as S])" % rel_name,
     }[shape]
 
 
@@ -103,6 +107,10 @@ def brought(shape, a_name, ms, export):
     elif shape in ("as", "rel-as"):
         sure = {"P.%s" % m: m for m in ex}
         maybe = {"P.%s" % m: m for m in non}
+    elif shape in ("pkg-sub", "pkg-sub-as"):
+        pre = "a" if shape == "pkg-sub" else "S"
+        sure = {"%s.%s" % (pre, m): m for m in ex}
+        maybe = {"%s.%s" % (pre, m): m for m in non}
     elif shape in ("names1", "macros-kw", "rel-names"):
         sure = {"m1": "m1"}
     elif shape == "names-p":
@@ -202,7 +210,7 @@ class CacheModel:
 
 # ------------------------------------------------------------------ extension rule
 
-EXT_NAMES = ["m.hy", "m.py", "m", "m.txt", "m.HY", "m.hy.py", "m.py.hy", "m.pyw"]
+EXT_NAMES = ["m.hy", "m.py", "m", "m.txt", "m.HY", "m.hy.py", "m.py.hy", "m.pyw", "m.PY", "m.Py", "m.py3"]
 
 # valid in both languages, different meaning:
 #   Hy:     `#_ 0` discards the 0, then (setv lang "hy") ...; line 2 is the string "" and a comment
